@@ -1029,7 +1029,7 @@ class Normaliser:
                         and isinstance(prev, ast.Assign) and len(prev.targets) == 1 \
                         and ast.unparse(prev.targets[0]) == ast.unparse(iff.body[0].targets[0]) and self._is_none(prev.value) \
                         and ast.unparse(iff.body[0].targets[0]) not in ast.unparse(iff.test) \
-                        and not any(isinstance(x, ast.Name) and x.id == tgt for s2 in body[i + 1:] for x in ast.walk(s2)):
+                        and not self._reads_after(tgt, body[i + 1:]):
                     new = ast.Assign(targets=[copy.deepcopy(prev.targets[0])], value=self._next_call(st, iff))
                     ast.copy_location(new, st)
                     body[i] = new
@@ -1039,6 +1039,29 @@ class Normaliser:
             for sub in self._sub_blocks(st):
                 self._n3_block(fn, sub, rel, is_fn_tail=False)
             i += 1
+
+    @staticmethod
+    def _reads_after(name, stmts) -> bool:
+        """is `name` read in the statements before it is bound again?  (a later `for name in ...` / comprehension over `name` re-binds it: reads inside are not reads
+        of the old value)"""
+        def rec(n, bound):
+            if isinstance(n, (ast.For, ast.AsyncFor)) and any(isinstance(x, ast.Name) and x.id == name for x in ast.walk(n.target)):
+                return rec_list([n.iter], bound) or rec_list(n.orelse, bound)        # body: re-bound
+            if isinstance(n, (ast.ListComp, ast.SetComp, ast.GeneratorExp, ast.DictComp)) and \
+                    any(isinstance(x, ast.Name) and x.id == name for g in n.generators for x in ast.walk(g.target)):
+                return rec_list([n.generators[0].iter], bound)
+            if isinstance(n, ast.Name) and n.id == name and isinstance(n.ctx, ast.Load):
+                return True
+            return rec_list(list(ast.iter_child_nodes(n)), bound)
+
+        def rec_list(nodes, bound):
+            return any(rec(x, bound) for x in nodes)
+        for st in stmts:
+            if isinstance(st, ast.Assign) and any(isinstance(t, ast.Name) and t.id == name for t in st.targets) and not rec(st.value, False):
+                return False
+            if rec(st, False):
+                return True
+        return False
 
     @staticmethod
     def _sub_blocks(st):
